@@ -405,8 +405,30 @@ fn thread_states() -> Vec<(String, char)> {
     v
 }
 
+/// Number of threads of the process that may still run user code: tasks that
+/// are not exiting. A thread that was just joined can linger in
+/// `/proc/self/task` for a moment (the kernel wakes the joiner before it reaps
+/// the task), but it then carries `PF_EXITING` (set at the very beginning of
+/// `do_exit`) or is a zombie/dead entry; such entries are not counted.
 pub fn thread_count() -> usize {
-    thread_states().len()
+    const PF_EXITING: u64 = 0x4;
+    let mut n = 0;
+    if let Ok(dir) = std::fs::read_dir("/proc/self/task") {
+        for e in dir.flatten() {
+            if let Ok(s) = std::fs::read_to_string(e.path().join("stat")) {
+                if let Some(b) = s.rfind(')') {
+                    let f: Vec<&str> = s[b + 1..].split_whitespace().collect();
+                    let state = f.first().and_then(|x| x.chars().next()).unwrap_or('?');
+                    let flags = f.get(6).and_then(|x| x.parse::<u64>().ok()).unwrap_or(0);
+                    if matches!(state, 'Z' | 'X' | 'x') || flags & PF_EXITING != 0 {
+                        continue;
+                    }
+                    n += 1;
+                }
+            }
+        }
+    }
+    n
 }
 
 /// Hang detector (DESIGN.md §4.5): a driver call is in flight, no probe or
